@@ -384,6 +384,67 @@ def check_assembly(ctx, case, pool, objs, motors, kv):
                 ctx.mismatch(case, {'elements': names, 'self_locking': want_sl}, kv['pt'])
 
 
+def gen_chain_case(rng, tbl):
+    """mostly-valid stream: a drive chain is built from the motor by joints and proper matings, with
+    failing calls interleaved, re-declarations that re-route the chain, and duplicate names now and then"""
+    pool = [{'type': 'motor', 'name': 'n0'}]
+    decls = []
+    prev = 0
+
+    def add(e):
+        e['name'] = f'n{len(pool)}' if rng.random() < 0.93 else f'n{rng.randrange(max(1, len(pool)))}'
+        pool.append(e)
+        return len(pool) - 1
+
+    def module():
+        return gen.in_unit(rng, 'Length', rng.choice([0.5e-3, 1e-3, 2e-3]), True) if rng.random() < 0.5 else None
+    for _ in range(rng.randint(1, 5)):
+        k = rng.choice(['fly', 'spur', 'helical', 'worm', 'wormrev'])
+        if k == 'fly':
+            i = add({'type': 'fly'})
+            decls.append(['joint', prev, i])
+            prev = i
+        elif k in ('spur', 'helical'):
+            mo = module()
+            hx = gen.in_unit(rng, 'Angle', math.radians(rng.uniform(5, 40)), True)
+            a = {'type': k, 'z': rng.randint(10, 90), 'module': mo}
+            b = {'type': k, 'z': rng.randint(10, 90), 'module': list(mo) if mo and rng.random() < 0.7 else None}
+            if k == 'helical':
+                a['helix'], b['helix'] = hx, list(hx)
+            ia, ib = add(a), add(b)
+            decls.append(['joint', prev, ia])
+            decls.append(['gear', ia, ib, rng.uniform(0.3, 1)])
+            prev = ib
+        else:
+            row = rng.choice(tbl)
+            locking = rng.random() < 0.4 and k == 'worm'
+            hx = rng.uniform(2, 6) if locking else rng.uniform(min(10, row[1] - 1), row[1] - 0.2)
+            f = rng.uniform(0.25, 0.5) if locking else rng.uniform(0, 0.12)
+            hq = gen.in_unit(rng, 'Angle', math.radians(hx), True)
+            worm = {'type': 'wormgear', 'starts': rng.randint(1, 4), 'pa': [row[0], 'deg'], 'pa_deg': row[0], 'helix': hq,
+                    'helix_deg': hx, 'd': gen.in_unit(rng, 'Length', 0.02, True) if rng.random() < 0.5 else None}
+            wheel = {'type': 'wormwheel', 'z': rng.randint(10, 90), 'module': module(), 'pa': [row[0], 'deg'], 'pa_deg': row[0],
+                     'helix': list(hq), 'helix_deg': hx, 'fw': gen.in_unit(rng, 'Length', 0.01, True) if rng.random() < 0.6 else None}
+            if k == 'worm':
+                ia, ib = add(worm), add(wheel)
+            else:
+                ia, ib = add(wheel), add(worm)
+            decls.append(['joint', prev, ia])
+            decls.append(['worm', ia, ib, f])
+            prev = ib
+        if rng.random() < 0.3:
+            # a failing or pointless call in between
+            n = len(pool)
+            decls.append(rng.choice([['joint', rng.randrange(n), 0], ['joint', prev, prev], ['gear', prev, rng.randrange(n), 1.4],
+                                     ['gear', rng.randrange(n), rng.randrange(n), 0.9], ['worm', rng.randrange(n), rng.randrange(n), 0.1],
+                                     ['worm', prev, rng.randrange(n), -0.5]]))
+    if rng.random() < 0.3 and len(pool) > 3:
+        # re-route: an earlier element now drives a new flywheel, cutting the tail off the chain
+        i = add({'type': 'fly'})
+        decls.append(['joint', rng.randrange(1, len(pool) - 1), i])
+    return {'t': 'rel', 'pool': pool, 'decls': decls}
+
+
 def worm_tbl():
     from harness.gears_h import read_csv
     return read_csv('worm_gear_and_wheel_data.csv')
@@ -393,12 +454,18 @@ def run_props(ctx, props, quick=300, thorough=12000):
     rng = ctx.rng
     tbl = worm_tbl()
     for _ in range(ctx.budget(quick, thorough) * ctx.boost):
-        pool = gen_pool(rng, tbl)
-        case = {'t': 'rel', 'pool': pool, 'decls': gen_decls(rng, pool)}
+        if rng.random() < 0.65:
+            case = gen_chain_case(rng, tbl)
+            ctx.count('stream mostly-valid chain')
+        else:
+            pool = gen_pool(rng, tbl)
+            case = {'t': 'rel', 'pool': pool, 'decls': gen_decls(rng, pool)}
+            ctx.count('stream random / malformed')
         eval_case(ctx, case, props)
     ctx.rule = ('pools of 3-9 elements of all six kinds (random teeth, modules, helix angles, the four worm pressure angles in '
                 'random units, duplicate names now and then) and sequences of 3-12 declaration calls with compatible and '
-                'incompatible pairs, efficiencies / friction coefficients in and out of range; every element is snapshotted '
+                'incompatible pairs, efficiencies / friction coefficients in and out of range (a mostly-valid chain-building stream '
+                'with interleaved failing calls and re-routing, plus a random / malformed stream); every element is snapshotted '
                 'before and after every call; then every motor of the pool is assembled; non-trivial = at least 3 calls')
 
 
